@@ -159,8 +159,13 @@ def _gen(ctx):
     edges = set(explicit) | set(resource)
     if cyc:
         edges.add((cyc[1], cyc[2]))
+    # command-less jobs ("barriers": `j.depends_on(*shards)` and nothing else).  Only jobs outside every resource
+    # edge qualify; drawn from a stream of their own so the rest of the pipeline is what it was without them
+    b = ctx.stream('barriers')
+    in_res = {k for e in resource for k in e} | ({cyc[1], cyc[2]} if cyc and cyc[0] == 'resource' else set())
+    nocmd = {k for k in range(n) if b.draw(4) == 3 and k not in in_res and k not in long_cmd}
     return {'n': n, 'explicit': explicit, 'resource': resource, 'always': always, 'long': long_cmd, 'cyc': cyc,
-            'seq': seq, 'edges': edges, 'pos': pos}
+            'seq': seq, 'edges': edges, 'pos': pos, 'nocmd': nocmd}
 
 
 def _fail_sets(ctx, n, cyclic):
@@ -185,8 +190,9 @@ class _Runner:
     """stands in for the `subprocess` module inside hailtop.batch.backend."""
     CalledProcessError = subprocess.CalledProcessError
 
-    def __init__(self, failing):
+    def __init__(self, failing, nocmd=()):
         self.failing = failing
+        self.nocmd = set(nocmd)
         self.order = []        # generator job numbers in the order their scripts were run
         self.ids = {}          # job number -> the id LocalBackend printed in the script header
         self.raised = []
@@ -197,10 +203,12 @@ class _Runner:
         if not shell or not isinstance(code, str):
             raise SimulationEscape('LocalBackend started a process the simulated runner does not understand')
         ks = {int(m) for m in MARK.findall(code)}
+        m = re.search(r'^# (\d+): job(\d+)$', code, re.M)
+        if not ks and m and int(m.group(2)) in self.nocmd:
+            ks = {int(m.group(2))}      # a command-less job: only the header LocalBackend writes names it
         if len(ks) != 1:
             raise SimulationEscape(f'script belongs to {len(ks)} generated jobs')
         k = ks.pop()
-        m = re.search(r'^# (\d+): job(\d+)$', code, re.M)
         if m and int(m.group(2)) == k:
             self.ids[k] = int(m.group(1))
         self.order.append(k)
@@ -224,7 +232,7 @@ def _execute(ctx, hb, bk, spec, failing, scratch):
         def __del__(self):  # the real __del__ runs close() on a fresh real event loop at GC time
             pass
 
-    runner = _Runner(failing)
+    runner = _Runner(failing, spec.get('nocmd', ()))
     out = {'exc': None, 'jobs': None}
 
     async def main(loop):
@@ -242,6 +250,9 @@ def _execute(ctx, hb, bk, spec, failing, scratch):
                 elif op[0] == 'command':
                     k = op[1]
                     j = jobs[k]
+                    if k in spec.get('nocmd', ()):
+                        ctx.probe('commandless_job')
+                        continue
                     cmd = f'echo JOBMARK_{k}_ > {j.ofile}'
                     for (u, v) in sorted(spec['resource']):
                         if u == k:
@@ -317,6 +328,9 @@ def run(ctx):
     scratch = tempfile.mkdtemp(prefix='verif-dsl-')
     try:
         for failing in sets:
+            # a command-less job has nothing that could fail; whether the backend starts a process for its empty
+            # script is not part of the property (only that skipping propagates through it), see `want - ran` below
+            failing = frozenset(failing) - spec['nocmd']
             runner, out = _execute(ctx, hb, bk, spec, failing, scratch)
             exc = out['exc']
             if exc is not None and not isinstance(exc, (BatchException, subprocess.CalledProcessError)):
@@ -367,8 +381,8 @@ def run(ctx):
                 ctx.violation('C17', 'skip_set', 'C17/executed_set/ran_but_should_skip',
                               f'failing={ftag}: job{k} ran although a dependency failed or was skipped '
                               f'(deps {sorted(deps[k])}, statuses {[status[d] for d in sorted(deps[k])]})')
-            if want - ran:
-                k = min(want - ran)
+            if want - ran - spec['nocmd']:
+                k = min(want - ran - spec['nocmd'])
                 cls = 'always_run' if k in spec['always'] else 'no_failed_dependency'
                 ctx.violation('C17', 'skip_set', f'C17/executed_set/skipped_but_should_run/{cls}',
                               f'failing={ftag}: job{k} was skipped (always_run={k in spec["always"]}, deps {sorted(deps[k])}, '
